@@ -194,10 +194,11 @@ func (k Keeper) RefundEarnedFees(ctx sdk.Context) error {
 	defer iterator.Close()
 
 	for ; iterator.Valid(); iterator.Next() {
-		provider := iterator.Key()[1:]
-
 		var earnedFee sdk.Coin
 		k.cdc.MustUnmarshalBinaryBare(iterator.Value(), &earnedFee)
+
+		// the key is the provider address followed by the denom
+		provider := iterator.Key()[1 : len(iterator.Key())-len(earnedFee.Denom)]
 
 		if err := k.bankKeeper.SendCoinsFromModuleToAccount(
 			ctx, types.RequestAccName, provider, sdk.NewCoins(earnedFee),
